@@ -77,6 +77,37 @@ def run(ctx, rep):
                 if not t.callee.indirect and t.callee.method() == "eq" and len(t.args) == 2 and all(E.mentions_field(kf.arg(t, i), "instance_handle") for i in (0, 1)):
                     okc = True
         add("R25c", "the reference time comes from the same instance", okc or (uses_state and not uses_list), "no instance_handle equality in the reference selection", fc.mir.blocks[sb].term.line)
+    # R25d / R25e: the reference is the last sample that was *presented*: it is written only by add_reader_change, only on a path
+    # that ends in Added (never followed by a rejection), only forwards in time — and nowhere else (not reset on rebirth)
+    REF = "last_accepted_source_timestamp"
+    nw = 0
+    for ob in fx.bodies.values():
+        if not ob.is_fn_like() or "::tests::" in ob.sname or not ob.sum_writes or not any(f == REF for a, f in ob.sum_writes):
+            continue
+        of = FnCtx(ob)
+        for bb, i, s in of.field_writes(None, REF):
+            nw += 1
+            here = ob.id == b.id
+            adder(rep, ob)("R25e", "the filter reference is written only while a sample is being accepted (add_reader_change)", here,
+                           "%s is written in %s: the reference of the separation test changes without a sample having been presented (e.g. reset when the instance is reborn)" % (REF, ob.sname.split("::")[-1]),
+                           s.line)
+            if not here:
+                continue
+            m = of.mir
+            r = m.reachable(bb)
+            bad = [(x, s2.rv.agg.get("variant")) for x, j, s2 in m.stmts() if s2.kind == "assign" and s2.rv is not None and s2.rv.is_adt("AddChangeResult") and s2.rv.agg.get("variant") in ("Rejected", "NotAdded") and x in r]
+            add("R25d", "the reference is recorded only for a sample that ends up stored (no rejection can follow)", not bad,
+                "after recording the reference the function can still return %s: a sample that was never presented becomes the reference and later samples far enough from everything presented are filtered" % sorted({v for _, v in bad}),
+                s.line)
+            def fwd(op, x, y):
+                if E.mentions_field(y, REF) and E.mentions_field(x, "source_timestamp"):
+                    return {"Gt": "true", "Le": "false"}.get(op)
+                if E.mentions_field(x, REF) and E.mentions_field(y, "source_timestamp"):
+                    return {"Lt": "true", "Ge": "false"}.get(op)
+                return None
+            g2 = of.cmp_guards(fwd)
+            add("R25d", "the reference only moves forward in time", bool(g2) and of.only_through([bb], g2), "write is not guarded by sample.source_timestamp > reference", s.line)
+    rep.floor("R25e", nw, 1, "writes to the filter reference")
     # NotAdded of the filter only behind the false edge
     drops = [(bb, s) for bb, i, s in fc.aggregates("AddChangeResult", "NotAdded")]
     g = [(sb, ce.false_target) for sb, ce, c in seps if ce.false_target is not None]
